@@ -296,9 +296,9 @@ def state_ok_after_abort(s, tree):
                 return "destination %s half written while the source is gone" % np_
         else:
             if cur is None:
-                bk = t.get(p + ".orig")
-                if not (s["opts"].get("b") and bk is not None and bk[2] == orig[2]):
-                    return "%s is missing" % p
+                # (a backup taken is no excuse: after an abort caused by the patch text the file itself has to be there, in its
+                # original state or in the patched state of a section that was processed to its end)
+                return "%s is missing from its path%s" % (p, " (its content is only in the backup %s.orig)" % p if t.get(p + ".orig") else "")
             elif cur[2] not in (orig[2], B) and cur[2] not in partial_states(x):
                 return "%s is neither in its original state nor in the state after a whole number of its hunks (%d bytes)" % (p, len(cur[2]))
     return None
